@@ -492,7 +492,7 @@ func plan(c *hx.Ctx) *hx.Plan {
 	depth, rounds := 3, 300
 	var maxExecs int64 = 60000
 	if !c.Quick() {
-		depth, rounds, maxExecs = 4, 3000, 200000
+		depth, rounds, maxExecs = 4, 3000, 20000
 	}
 	return &hx.Plan{
 		N: len(js),
